@@ -894,7 +894,7 @@ pub fn run_once(cfg: &WakeCfg, shard: &mut Shard) -> (u64, bool, bool) {
             }
             if t2.elapsed() > Duration::from_secs(20) {
                 shard.inconclusive.push(format!("threads did not return even after every sender was dropped: {}", cfg.describe()));
-                let vs = payload::take_violations();
+                let vs = also_c12(cfg, payload::take_violations());
                 if !vs.is_empty() {
                     let replay = J::obj().set("engine", J::s("wake")).set("cfg", J::s(cfg.describe())).set("run_seed", J::UInt(cfg.seed));
                     shard.add_violations(vs, &replay);
@@ -960,7 +960,7 @@ pub fn run_once(cfg: &WakeCfg, shard: &mut Shard) -> (u64, bool, bool) {
         shard.samples.push(J::obj().set("cfg", J::s(cfg.describe())).set("history", hist::dump(&h, 60)));
     }
     if violated || payload::violations_pending() > 0 {
-        let vs = payload::take_violations();
+        let vs = also_c12(cfg, payload::take_violations());
         let replay = J::obj()
             .set("engine", J::s("wake"))
             .set("cfg", J::s(cfg.describe()))
@@ -969,6 +969,20 @@ pub fn run_once(cfg: &WakeCfg, shard: &mut Shard) -> (u64, bool, bool) {
         shard.add_violations(vs, &replay);
     }
     (sig.get(), woken > 0, false)
+}
+
+/// Handles were cloned or dropped while this scenario ran (a sender clone dropped mid-run, consumers
+/// of a shared stream leaving one by one): that is supposed to be invisible to everybody else, so a
+/// consumer left blocked is a finding about C12 as well.
+fn also_c12(cfg: &WakeCfg, mut vs: Vec<payload::Violation>) -> Vec<payload::Violation> {
+    if cfg.ghost.is_some() || cfg.streams.iter().any(|q| q.len() > 1) {
+        for v in vs.iter_mut() {
+            if !v.prop.contains("C12") {
+                v.prop = payload::intern(format!("{},C12", v.prop));
+            }
+        }
+    }
+    vs
 }
 
 pub fn run_many(seed: u64, runs: u64, budget_ms: u64, small: bool, shard: &mut Shard) {
